@@ -63,10 +63,10 @@ func genC12(t *rapid.T) c12Case {
 		}
 		r.SubDiffer = rapid.IntRange(0, 4).Draw(t, "subDiffers") == 0
 		r.Host = rapid.SampledFrom([]string{"absent", "listed:0", "listed:1", "unlisted", "qt-valid:0", "qt-valid:1", "qt-unlisted", "qt-forged", "qt-expired", "qt-wrong-issuer", "qt-no-issuer", "qt-wrong-key", "junk"}).Draw(t, "hostParam")
-		r.Login.IP = rapid.SampledFrom(c04IPs[:4]).Draw(t, "loginIP")
+		r.Login.IP = rapid.SampledFrom(c04IPs).Draw(t, "loginIP")
 		r.From.IP = r.Login.IP
 		if rapid.IntRange(0, 2).Draw(t, "moved") == 0 {
-			r.From.IP = rapid.SampledFrom(c04IPs[:4]).Draw(t, "fromIP")
+			r.From.IP = rapid.SampledFrom(c04IPs).Draw(t, "fromIP")
 		}
 		if rapid.IntRange(0, 3).Draw(t, "xff") == 0 {
 			r.From.XFF = genChain(t, rapid.SampledFrom([]string{"10.1.2.3", "2001:db8::1", "127.0.0.9"}).Draw(t, "xffFirst"))
